@@ -20,7 +20,10 @@ RULE = ('generated workbooks with 2-4 sheets (names with blanks/quotes), built '
         'consecutive blanks in a row and in a column, cross-sheet ping-pong '
         'chains, references that follow a cross-sheet reference, defined names '
         'for cells and ranges (in formulas and passed to evaluate), empty '
-        'cells inside and outside ranges.  non-trivial = the reference value '
+        'cells inside and outside ranges; the model is the compiled one, a '
+        'deep copy, restored from JSON or extracted with everything in focus; '
+        'a sample of the probes is evaluated again after block cells were '
+        're-assigned.  non-trivial = the reference value '
         'changes when the probe is resolved on another sheet, or the '
         'rectangle has >= 2 cells; distinct by (probe kind, spelling, shape, '
         'construction path, value)')
@@ -29,7 +32,8 @@ ASSUMPTIONS = [
     'the dereference trace is diagnostic only (how a range is walked is not '
     'part of the property)',
 ]
-FLOORS = {'probes': 2000, 'name_probes': 20}
+FLOORS = {'probes': 2000, 'name_probes': 20,
+          'probes_after_reassignment': 500, 'derived_models': 5}
 ANCHOR_FUNCS = {
     'xlcalculator/ast_nodes.py': ['RangeNode.eval', 'RangeNode.full_address',
                                   'EvalContext.set_sheet'],
@@ -384,6 +388,13 @@ def run(ctx):
                     sheet_order=sheets)
             else:
                 model = build.model_from_dict(wb, default_sheet=sheets[0])
+            prov = rng.choice(['compiled', 'compiled', 'extracted', 'json',
+                               'deepcopy'])
+            model = build.derive(model, prov, os.path.join(
+                outdir, f's{ctx.shard}.json'))
+            if prov != 'compiled':
+                ctx.event('derived_models')
+            prov_note = '' if prov == 'compiled' else ', ' + prov + ' model'
         except Exception as e:  # noqa
             ctx.fail(f'building the workbook ({path_kind}) raised '
                      f'{type(e).__name__}: {str(e)[:200]}',
@@ -392,51 +403,72 @@ def run(ctx):
                      monitor='construction', group='build-' + path_kind)
             continue
         ev = Evaluator(model)
-        for p in probes:
-            a = build.addr(p.key)
-            got = subject.outcome_of(lambda: ev.evaluate(a))
-            try:
-                want = ('value', ref.to_norm(wb.value(p.key)))
-            except ref.Undecided:
-                ctx.event('skipped_undecided')
-                continue
-            # non-triviality: resolved on another sheet the value differs
-            nt = None
-            try:
-                others = [s for s in sheets if s != p.key[0]]
-                alt = wb.eval(p.ast, others[0]) if others else None
-                if (ref.to_norm(alt) != want[1]) or (
-                        p.shape and p.shape[0] * p.shape[1] >= 2):
-                    nt = (p.kind, p.spelling, p.shape, path_kind, want[1])
-            except Exception:  # noqa
-                nt = (p.kind, p.spelling, p.shape, path_kind, want[1])
-            ctx.case(nt)
-            ctx.event('probes')
-            if p.kind.startswith('name'):
-                ctx.event('name_probes')
-            if ctx.want_sample() and rng.random() < 0.01:
-                ctx.sample({'sheets': sheets, 'path': path_kind, 'cell': a,
-                            'formula': '=' + ref.render(p.ast),
-                            'observed': got, 'reference': want[1]})
-            ok = got == want or (
-                got[0] == 'value' and want[1][0] == 'num'
-                and got[1][0] == 'num' and got[1][1] == want[1][1])
-            # a blank read may surface as blank or as the number 0 when it is
-            # the whole formula (=REF of an empty cell): both read "blank"
-            if not ok:
-                ctx.fail(
-                    f'[{path_kind}] {a} ="{ref.render(p.ast)}" ({p.kind} '
-                    f'{p.spelling}) observed {got}, reference {want[1]}',
-                    {'path': path_kind, 'sheets': sheets, 'cell': a,
-                     'formula': '=' + ref.render(p.ast), 'kind': p.kind,
-                     'tags': sorted(p.tags), 'observed': got,
-                     'reference': want[1],
-                     'names': {k: build.name_target(v)
-                               for k, v in names.items()}},
-                    kf=classify(p, got, want, path_kind, wb),
-                    monitor='probe-value',
-                    group=f'{path_kind}:{p.kind}:{p.spelling[:3]}:'
-                          f'{",".join(sorted(p.tags))}')
+
+        def run_probes(plist, phase):
+          for p in plist:
+              a = build.addr(p.key)
+              got = subject.outcome_of(lambda: ev.evaluate(a))
+              try:
+                  want = ('value', ref.to_norm(wb.value(p.key)))
+              except ref.Undecided:
+                  ctx.event('skipped_undecided')
+                  continue
+              # non-triviality: resolved on another sheet the value differs
+              nt = None
+              try:
+                  others = [s for s in sheets if s != p.key[0]]
+                  alt = wb.eval(p.ast, others[0]) if others else None
+                  if (ref.to_norm(alt) != want[1]) or (
+                          p.shape and p.shape[0] * p.shape[1] >= 2):
+                      nt = (p.kind, p.spelling, p.shape, path_kind, want[1])
+              except Exception:  # noqa
+                  nt = (p.kind, p.spelling, p.shape, path_kind, want[1])
+              ctx.case(nt)
+              ctx.event('probes' if phase == 'first' else 'probes_after_reassignment')
+              if p.kind.startswith('name'):
+                  ctx.event('name_probes')
+              if ctx.want_sample() and rng.random() < 0.01:
+                  ctx.sample({'sheets': sheets, 'path': path_kind, 'cell': a,
+                              'formula': '=' + ref.render(p.ast),
+                              'observed': got, 'reference': want[1]})
+              ok = got == want or (
+                  got[0] == 'value' and want[1][0] == 'num'
+                  and got[1][0] == 'num' and got[1][1] == want[1][1])
+              # a blank read may surface as blank or as the number 0 when it is
+              # the whole formula (=REF of an empty cell): both read "blank"
+              if not ok:
+                  ctx.fail(
+                      f'[{path_kind}{prov_note}{"" if phase == "first" else ", after re-assigning " + phase}] {a} ="{ref.render(p.ast)}" ({p.kind} '
+                      f'{p.spelling}) observed {got}, reference {want[1]}',
+                      {'path': path_kind, 'model': prov, 'phase': phase,
+                       'sheets': sheets, 'cell': a,
+                       'formula': '=' + ref.render(p.ast), 'kind': p.kind,
+                       'tags': sorted(p.tags), 'observed': got,
+                       'reference': want[1],
+                       'names': {k: build.name_target(v)
+                                 for k, v in names.items()}},
+                      kf=classify(p, got, want, path_kind, wb),
+                      monitor='probe-value',
+                      group=f'{path_kind}:{p.kind}:{p.spelling[:3]}:'
+                            f'{",".join(sorted(p.tags))}')
+        run_probes(probes, 'first')
+        # ---- the CURRENT value: cells of the blocks are re-assigned through
+        # set_cell_value and a sample of the probes is evaluated again
+        numeric = [k for k, v in cells.items()
+                   if isinstance(v, (int, float)) and not isinstance(v, bool)]
+        changed = rng.sample(numeric, min(len(numeric), 5))
+        try:
+            for k in changed:
+                v = cells[k] * 2 + 0.25
+                ev.set_cell_value(build.addr(k), v)
+                wb.cells[k] = v
+        except Exception as e:  # noqa
+            ctx.fail(f'set_cell_value raised {e!r}', {'cells': [
+                build.addr(k) for k in changed]}, monitor='construction',
+                group='set')
+            continue
+        run_probes(rng.sample(probes, min(len(probes), 60)),
+                   ','.join(build.addr(k) for k in changed))
         # names passed to evaluate()
         for nm, target in names.items():
             if target[0] != 'ref':
